@@ -851,6 +851,8 @@ class Emitter:
             if mname == 'size' and not a: return ('%s.size' % ot, Type('size_t'))
             if mname == 'data' and not a: return ('%s.data' % ot, Type(self._elem_type_name(oty), ptr=1))
             if mname == 'empty' and not a: return ('(%s.size == 0)' % ot, Type('bool'))
+            if mname == 'clear' and not a:
+                return ('%s_resize(&%s, 0)' % (sn, ot), None)
             if mname == 'resize' and len(a) == 1:
                 cx.cur_maythrow = True
                 return ('%s_resize(&%s, %s)' % (sn, ot, a[0]), None)
